@@ -114,8 +114,9 @@ class Frame:
                 return Arr(n.split('.')[-1], (), args[0] if isinstance(args[0], (tuple, list)) else None)
             if n.endswith('as_strided') and args:
                 U(pe, 'allocs').append((func.name, 'as_strided', None))
-                U(pe, 'strided').append((func.name, arr(args[0], pe), kw.get('shape', args[1] if len(args) > 1 else None), kw.get('strides', args[2] if len(args) > 2 else None), kw))
-                return Arr('windows', (), kw.get('shape'))
+                shp = kw.get('shape', args[1] if len(args) > 1 else None)
+                U(pe, 'strided').append((func.name, arr(args[0], pe), shp, kw.get('strides', args[2] if len(args) > 2 else None), kw))
+                return Arr('windows', (), shp if isinstance(shp, (tuple, list)) else None)
             if n in ('numpy.repeat', 'numpy.tile', 'numpy.arange'):
                 U(pe, 'allocs').append((func.name, n, None))
                 return NotImplemented
